@@ -377,7 +377,7 @@ func TestC04_Shipped(t *testing.T) {
 		b := &Build{Dir: dir, Cfg: c}
 		defer b.Clean()
 		os.MkdirAll(b.Root(), 0o755)
-		for n, k := range []string{"stale-profile", "junk-dir", "systemd-junk", "dangling-symlink"} {
+		for n, k := range []string{"stale-profile", "junk-dir", "systemd-junk", "dangling-symlink", "hidden-file", "hidden-dir"} {
 			pollute(b.Root(), k, n)
 		}
 		if log, err := RunPrebuild(dir, c, true); err != nil {
